@@ -9,7 +9,8 @@ LEVEL = 'exploration'
 RULE = ('every key list of length 1..L (quick 2, thorough 3) over {name, ext, path, size, hardlinks, uid, modified, '
         'length(name), size * 2, size + hardlinks, size - 50, day(modified), year(modified), 1000 - size (positional)} plus lists that repeat a key x every direction vector x {explicit asc, omitted} x {explicit, '
         'positional, with decoy columns that mention the key columns} spelling x key selected or not x with/without WHERE x readdir arrival order {sorted, reversed} '
-        '(shim); non-trivial = key vectors are not all equal and the ordered output differs from the unordered one')
+        '(shim); non-trivial = key vectors are not all equal and the ordered output differs from the unordered one'
+        '; odd keys: keys that some rows have no value for beside negative and fractional ones (line_count, -line_count, sqrt(line_count) ...), whole numbers around 2^53 and 2^60, modification years -1..19999 (the last two on /dev/shm) x direction x readdir order x {no limit, limit 3}; keys that begin with a sign or bracket')
 ASSUMPTIONS = ['key values come from lstat of the generated tree, not from the output',
                'string keys compare bytewise (UTF-8), numeric keys by value, dates chronologically',
                'LD_PRELOAD shim fixes the readdir order; a pass-through self-test guards the shim']
